@@ -68,17 +68,33 @@ let site_is_info s = s.car = 1 || (s.car >= 2 && op_info s.op)
 let positions (f : gforest) : (int * int) array =
   Array.of_list (List.concat (List.mapi (fun j u -> List.mapi (fun i _ -> (j, i)) u) f))
 
-let to_model ver fmt (f : gforest) : Filter.unitd list * (int, int) Hashtbl.t =
+(* Position of every entry of a unit in the order gimli::write::Unit writes them: root-level DW_TAG_base_type
+   subtrees first (reorder_base_types).  The model is given the forest in WRITTEN order, which is the order
+   the reader, the filter and the converter see (it decides which of several conversion errors comes first). *)
+let write_rank (u : gent list) : int array =
+  let a = Array.of_list u in
+  let n = Array.length a in
+  let top = Array.make n 0 in
+  let cur = ref 0 in
+  Array.iteri (fun i e -> if e.depth = 1 then cur := i; top.(i) <- !cur) a;
+  let key i = ((if a.(top.(i)).tag = 0x24 (* DW_TAG_base_type *) then 0 else 1), i) in
+  let order = List.sort (fun x y -> compare (key x) (key y)) (List.init n (fun i -> i)) in
+  let w = Array.make n 0 in
+  List.iteri (fun rank i -> w.(i) <- rank) order;
+  w
+
+let to_model ver fmt (f : gforest) : Filter.unitd list * (int, int) Hashtbl.t * (int -> int) =
   let hdr = hdr_size ver fmt in
   let pos = positions f in
-  let eoff i = hdr + 10 * (i + 1) in
+  let ranks = Array.of_list (List.map write_rank f) in
+  let eoffj j i = hdr + 10 * (ranks.(j).(i) + 1) in
   let ident : (int, int) Hashtbl.t = Hashtbl.create 64 in   (* section offset -> identity *)
-  Array.iteri (fun k (j, i) -> Hashtbl.replace ident (unit_stride * j + eoff i) k) pos;
+  Array.iteri (fun k (j, i) -> Hashtbl.replace ident (unit_stride * j + eoffj j i) k) pos;
   let site_val j0 s =
     let info = site_is_info s in
     match s.tgt with
-    | TOobEnt k -> let (j, i) = pos.(k) in unit_stride * (j - j0) + eoff i
-    | TEnt k -> let (j, i) = pos.(k) in if info then unit_stride * j + eoff i else eoff i
+    | TOobEnt k -> let (j, i) = pos.(k) in unit_stride * (j - j0) + eoffj j i
+    | TEnt k -> let (j, i) = pos.(k) in if info then unit_stride * j + eoffj j i else eoffj j i
     | TRoot j -> if info then unit_stride * j + hdr else hdr
     | TMid j -> if info then unit_stride * j + hdr + 1 else hdr + 1
     | TOob -> if info then oob_info else oob_unit
@@ -93,7 +109,7 @@ let to_model ver fmt (f : gforest) : Filter.unitd list * (int, int) Hashtbl.t =
     | 5 -> Filter.CLoc (Filter.LocInverted, nest, refops.(s.op))
     | _ -> Filter.CLoc (Filter.LocTombstone, nest, refops.(s.op)) in
   let mk_entry j0 i (e : gent) : Filter.entry =
-    { Filter.e_off = n_of_int (eoff i); e_tag = n_of_int e.tag; e_decl = e.decl;
+    { Filter.e_off = n_of_int (eoffj j0 i); e_tag = n_of_int e.tag; e_decl = e.decl;
       e_sites = List.map (fun s -> { Filter.s_car = car_of s; s_val = n_of_int (site_val j0 s) }) e.sites } in
   (* preorder + depth -> trees *)
   let rec build j0 d (l : (int * gent) list) : Filter.tree list * (int * gent) list =
@@ -105,11 +121,12 @@ let to_model ver fmt (f : gforest) : Filter.unitd list * (int, int) Hashtbl.t =
     | _ -> ([], l) in
   let units = List.mapi (fun j u ->
     let n = List.length u in
-    let trees, left = build j 1 (List.mapi (fun i e -> (i, e)) u) in
+    let written = List.sort (fun (a, _) (b, _) -> compare ranks.(j).(a) ranks.(j).(b)) (List.mapi (fun i e -> (i, e)) u) in
+    let trees, left = build j 1 written in
     if left <> [] then failwith "s_c19: ill-formed depth sequence";
     { Filter.u_off = n_of_int (unit_stride * j); u_hdr = n_of_int hdr; u_len = n_of_int (10 * (n + 2));
       u_kids = trees }) f in
-  (units, ident)
+  (units, ident, (fun k -> let (j, i) = pos.(k) in unit_stride * j + eoffj j i))
 
 let show ident (r : (BinNums.coq_N * BinNums.coq_N) list Res.res) : string =
   match r with
@@ -125,10 +142,8 @@ let show ident (r : (BinNums.coq_N * BinNums.coq_N) list Res.res) : string =
   | Res.OutOfFuel -> "outoffuel"
 
 let eval ?(tol = false) ~spec ver fmt (f : gforest) (req : int list) (dbg : bool) : string =
-  let units, ident = to_model ver fmt f in
-  let pos = positions f in
-  let hdr = hdr_size ver fmt in
-  let reqoffs = List.map (fun k -> let (j, i) = pos.(k) in n_of_int (unit_stride * j + hdr + 10 * (i + 1))) req in
+  let units, ident, off_of = to_model ver fmt f in
+  let reqoffs = List.map (fun k -> n_of_int (off_of k)) req in
   let reqf x = List.mem x reqoffs in
   let rf = if spec then Filter.conv_refs else Filter.filter_refs in
   show ident ((if tol then Filter.convert_filtered_tol else Filter.convert_filtered) rf dbg reqf units)
